@@ -35,8 +35,31 @@ def known (s : List Char) : List Char := if hashNames.contains s then s else []
 /-- `Token.Ident` as filled by `parseDeclaration`: hash of the lower-cased lexeme of an identifier -/
 def identOf (t : Tok) : List Char := if t.tt == .ident then known (lower t.data) else []
 
-/-- `Token.Fun`: hash of the lower-cased function name -/
-def funOf (t : Tok) : List Char := if t.tt == .function then known (lower t.data.dropLast) else []
+/-- `zeroAngleFunc`: the pseudo hash of the unhashed functions that accept a bare `0` for an `<angle>` -/
+def zeroAngleFn : List Char := ['\x01']
+
+def zeroAngleFuncs : List (List Char) :=
+  ["rotate", "rotatex", "rotatey", "rotatez", "rotate3d", "skew", "skewx", "skewy", "hue-rotate",
+   "conic-gradient", "repeating-conic-gradient"].map String.toList
+
+def angleDimension : List (List Char) := ["deg", "grad", "rad", "turn"].map String.toList
+
+/-- `funHash` of a function name (without the parenthesis) -/
+def funHash (name : List Char) : List Char :=
+  let l := lower name
+  if known l != [] then known l else if zeroAngleFuncs.contains l then zeroAngleFn else []
+
+/-- `Token.Fun` -/
+def funOf (t : Tok) : List Char := if t.tt == .function then funHash t.data.dropLast else []
+
+/-- the math functions whose arguments are minified like those of `calc()` -/
+def typedMathFuncs : List (List Char) :=
+  ["abs", "sign", "hypot", "atan2", "pow", "sqrt", "mod", "rem", "sin", "cos", "tan", "asin", "acos", "atan",
+   "exp", "log"].map String.toList
+
+/-- the `fun` argument with which the arguments of function `name` are minified -/
+def argFun (name : List Char) : List Char :=
+  if funHash name == [] && typedMathFuncs.contains (lower name) then "calc".toList else funHash name
 
 def tIdent (s : List Char) : Tok := .mk .ident s []
 def tNum (s : List Char) : Tok := .mk .number s []
@@ -122,9 +145,11 @@ def minifyDimension (o : Opts) (data : List Char) : List Char × List Char :=
   (m ++ dim, aliasedDim dim tail)
 
 /-- the zero-unit cut of `minifyTokens`: `d` = minified lexeme, `dimSeen` = unit bytes as `minifyDimension`
-    returned them, `fn` = hash of the enclosing function (`[]` = none or unknown) -/
+    returned them, `fn` = `fun` of the enclosing function (`[]` = none or unknown); a zero angle loses its unit only in the
+    `zeroAngleFn` functions -/
 def zeroCut (prop fn d dimSeen : List Char) : List Char :=
-  if 1 < d.length && d.head? == some '0' && optionalZeroDimension.contains dimSeen && prop != S "flex" && fn == [] then ['0']
+  if 1 < d.length && d.head? == some '0' && optionalZeroDimension.contains dimSeen && prop != S "flex" &&
+      ((fn == [] && !angleDimension.contains dimSeen) || fn == zeroAngleFn) then ['0']
   else d
 
 /-- `removeMarkupNewlines` once a first `\`-newline has been found: drop every `\` + newline -/
@@ -237,6 +262,10 @@ def minifyColorFunc (t : Tok) : Option Tok :=
   match colorVals 0 args [] with
   | none => some t
   | some vals =>
+    -- a separator trails the last value; the comma syntax of rgb() mixes numbers and percentages
+    if args.length + 1 != 2 * vals.length then some t else
+    if rgbFuns.contains fn && 3 ≤ vals.length && (args.getD 1 default).tt == .comma &&
+        ((args.getD 0 default).tt != (args.getD 2 default).tt || (args.getD 0 default).tt != (args.getD 4 default).tt) then some t else
     -- float32 range of ParseFloat(…, 32)
     if vals.any (fun v => 100000000000000000000000000000000000000 < v || v < -100000000000000000000000000000000000000) then none else
     let opaque4 := vals.length == 4 && 1 - epsilon < vals.getD 3 0
@@ -255,11 +284,10 @@ def minifyColorFunc (t : Tok) : Option Tok :=
           if (args.getD (j * 2) default).tt == .number then clampEps (vals'.getD j 0 / 255) else vals'.getD j 0
         some (rgbToToken (v 0) (v 1) (v 2))
       else
-        -- fun == Hsl || fun == Hsla && number, percentage, percentage
+        -- (fun == Hsl || fun == Hsla) && number, percentage, percentage
         let typed := (args.getD 0 default).tt == .number && (args.getD 2 default).tt == .percentage &&
           (args.getD 4 default).tt == .percentage
-        if fn == S "hsl" || typed then
-          if !typed then none else
+        if typed then
           let h0 := vals'.getD 0 0 / 360
           -- math.Modf: fractional part with the sign of the argument
           let frac : Rat := if 0 ≤ h0 then h0 - (h0.floor : Rat) else -((-h0) - ((-h0).floor : Rat))
@@ -294,13 +322,20 @@ def minifyColorFunc (t : Tok) : Option Tok :=
 def integerProps : List (List Char) :=
   ["z-index", "counter-increment", "counter-reset", "orphans", "widows"].map S
 
-/-- is the part of a dimension lexeme before its trailing letters a number of the CSS grammar? -/
-def dimInDomain (data : List Char) : Bool :=
-  let unitRev := data.reverse.takeWhile isLetter
-  (Verif.Spec.CssValue.splitNumber (data.take (data.length - unitRev.length))).isSome
+/-- `minifyDimension` leaves a dimension alone when the bytes after its number are not all letters -/
+def unitIsLetters (data : List Char) : Bool := (Verif.Spec.CssValue.spanNumber data).2.all isLetter
+
+/-- `gluedSignedNumber`: a signed number directly behind a token it would merge with once the sign is dropped -/
+def gluedSignedNumber (prev cur : Tok) : Bool :=
+  (cur.tt == .number || cur.tt == .percentage || cur.tt == .dimension) &&
+  (cur.data.head? == some '+' || cur.data.head? == some '-') &&
+  prev.tt != .function &&
+  (match prev.data.getLast? with
+   | some c => isLetter c || ('0' ≤ c && c ≤ '9') || c == '.' || c == '+' || c == '-' || c == '_' || c == '\\' || c.toNat ≥ 0x80
+   | none => false)
 
 mutual
-/-- `minifyTokens` on one token (`fn` = hash of the enclosing function, `[]` at top level) -/
+/-- `minifyTokens` on one token (`fn` = `fun` of the enclosing function, `[]` at top level) -/
 def minifyTok (o : Opts) (prop fn : List Char) : Nat → Tok → Option Tok
   | 0, t => some t
   | lvl + 1, t =>
@@ -308,29 +343,34 @@ def minifyTok (o : Opts) (prop fn : List Char) : Nat → Tok → Option Tok
     | .number => if integerProps.contains prop then some t else some (tNum (num o t.data))
     | .percentage => some (tPct (num o t.data.dropLast ++ ['%']))
     | .dimension =>
-      if !dimInDomain t.data then none else
+      if !unitIsLetters t.data then some t else
       let (d, dim) := minifyDimension o t.data
       some (.mk .dimension (zeroCut prop fn d dim) [])
     | .string => some (.mk .string (removeMarkupNewlines t.data) [])
     | .url => (minifyURL t.data).map fun d => .mk .url d []
     | .function =>
-      match minifyToks o prop (funOf t) lvl t.args with
+      match minifyToks o prop (argFun t.data.dropLast) true lvl none t.args with
       | none => none
       | some args =>
         let t' := Tok.mk .function t.data args
         if colorFuns.contains (funOf t) then minifyColorFunc t' else some t'
     | _ => some t
-def minifyToks (o : Opts) (prop fn : List Char) : Nat → List Tok → Option (List Tok)
-  | _, [] => some []
-  | lvl, t :: r =>
-    match minifyTok o prop fn lvl t, minifyToks o prop fn lvl r with
-    | some t', some r' => some (t' :: r')
-    | _, _ => none
+/-- the loop of `minifyTokens`; `prev` = the previous token as already rewritten, `inFn` = inside a function -/
+def minifyToks (o : Opts) (prop fn : List Char) (inFn : Bool) : Nat → Option Tok → List Tok → Option (List Tok)
+  | _, _, [] => some []
+  | lvl, prev, t :: r =>
+    let glued := inFn && (match prev with | some p => gluedSignedNumber p t | none => false)
+    match (if glued then some t else minifyTok o prop fn lvl t) with
+    | none => none
+    | some t' =>
+      match minifyToks o prop fn inFn lvl (some t') r with
+      | some r' => some (t' :: r')
+      | none => none
 end
 
 /-- `minifyTokens` at top level (nesting deeper than 100 levels is outside the model) -/
 def minifyTokens (o : Opts) (prop : List Char) (vs : List Tok) : Option (List Tok) :=
-  minifyToks o prop [] 100 vs
+  minifyToks o prop [] false 100 none vs
 
 /-! ## minifyColor -/
 
